@@ -15,7 +15,9 @@ with different ones and must answer with the rank's afterwards; fibers that alre
 given to a second tensor (or copied without their owner), after which the donor's fibers must still answer
 with the donor's ranks' attributes.  Nests of lists given to fromUncompressed may be ragged (lists under
 different parents of different lengths); the expected shape is the per-rank longest list of the raw nest.
-Tensors may also receive their content after construction (built empty - also dumped to YAML and loaded back while
+The sub-fiber a tensor hands out for a
+row it does not store (also while the tensor is empty) is an operand like any other member of its rank; an operand is read again
+after the transform made from it.  Tensors may also receive their content after construction (built empty - also dumped to YAML and loaded back while
 empty - or from a fibertree, then filled / grown point by point through getPayloadRef): the tensors transforms make
 from them are judged like any other.  The fibers of one level of a free fibertree may each declare their own extent.
 """
@@ -38,7 +40,7 @@ SPEC = {
              "YAML and loaded back while empty, and then filled point by point through getPayloadRef in arbitrary "
              "order (the way a kernel fills its output), or built by fromFiber and then grown the same way, where the "
              "shape is estimated also beyond the extent recorded so far -, followed by a chain of 1-3 transforms (four "
-             "split kinds x depth/rankid x relative/halo, swizzle permutations incl. 3-cycles, swap at every depth, "
+             "split kinds x depth / rankid / both (naming the same or different ranks: rankid overrides depth) x relative/halo, swizzle permutations incl. 3-cycles, swap at every depth, "
              "flatten/merge in five coordinate styles x depth x levels incl. flatten of an already flattened rank, "
              "mergeRanks with absolute coordinates over any run of integer ranks incl. the run from above the two halves "
              "of a split down to the lower half, unflatten), between which the holder may RE-DECLARE attributes of the "
@@ -46,9 +48,14 @@ SPEC = {
              "-, setMutable): these are the operand's attributes for the next transform, which must carry them over "
              "like those given at construction (systematically: flatten two of four ranks, declare the new rank U, then "
              "flatten / merge / swap / split ranks elsewhere, or flatten and unflatten them again), "
-             "every intermediate result compared with the attribute algebra and walked for coordinate containment; "
+             "every intermediate result compared with the attribute algebra and walked for coordinate containment, and every "
+             "operand re-read after the transform made from it (it must still answer with the attributes the algebra "
+             "holds for it; snapshots are deep, never aliases of lists the library handed out); "
              "(lazy) two or more fibers with different declared shapes / active ranges / rank ids (free, tensor "
-             "root, interior fiber, split partition) under & | ^ - intersection union prune << project and the six "
+             "root, interior fiber, split partition, or the empty default sub-fiber a two-rank tensor - still EMPTY, its lower "
+             "rank holding no fiber yet, or storing another row - hands out for a row it lacks, through getPayload of the "
+             "missing coordinate or as its operand of a union with a populated tensor: it belongs to the lower rank and "
+             "answers with that rank's id / shape / range) under & | ^ - intersection union prune << project and the six "
              "dense co-iterators; (join) a free fibertree with its own shapes (one per level, or one per FIBER: the "
              "fibers of a level were built separately and declare different extents, in any order), default and rank id "
              "joined to a tensor with different ones, then the tensor's attributes changed; (rejoin) a fiber that "
@@ -74,7 +81,10 @@ SPEC = {
                              "grown_beyond_recorded_estimate": 25, "join_sibling_shapes_differ": 40,
                              "merge_absolute_from_above_split_halves": 100, "fiber_split_merge_absolute": 10,
                              "attributes_redeclared": 300, "flattened_rank_format_declared": 150,
-                             "declared_format_of_flattened_rank_carried": 150},
+                             "declared_format_of_flattened_rank_carried": 150,
+                             "split_rankid_and_depth_disagree": 60, "operand_rechecked_after_transform": 1500,
+                             "operand_with_flattened_rank_rechecked": 150, "default_subfibers": 150,
+                             "default_subfibers_of_empty_tensor": 80},
                    "thorough": {"evaluations": 30000, "oracle_evals": 800000, "xform_steps": 30000,
                                 "lazy_results": 60000, "ragged_nests_shape_calculated": 600,
                                 "rejoined_fibers": 60000, "rejoin_three_or_more_levels": 2000,
@@ -144,7 +154,13 @@ SPEC = {
         "on a copy); the attributes the owner-less copy of copy(preserve_owner=False) answers with are not specified "
         "(only: no owner at any level, coordinates inside its own reported shape / active range); the shape a "
         "second tensor reports when none is given is not specified (its fibers must agree with whatever it reports)",
-        "lazy results are not consumed (their content is C04/C05/C07's), except populate which is driven to the end",
+        "lazy results are not consumed (their content is C04/C05/C07's), except populate which is driven to the end "
+        "and the union of two tensor roots that is iterated to obtain the default sub-fiber of the empty one",
+        "a split given both depth= and rankid= is performed at the rank rankid names (Fiber.split*: rankid 'overrides "
+        "depth'); ids, shape and formats of the result must describe that split",
+        "the sub-fiber handed out for a missing row of a tensor with a given shape is a member of the next rank (the "
+        "library sets that rank as its owner): it answers with the rank's id, shape and active range (0, shape) "
+        "whether or not the rank holds other fibers",
     ],
 }
 
@@ -700,8 +716,12 @@ def _sys_case(rng, depth, fam, explicit, default, fmts, mutable):
 
 
 def _split_params(rng, kind, d, ids, ext=5):
-    """Parameters of one split at depth d: by `depth=` or by `rankid=` (when ids are known), boundaries from 0."""
+    """Parameters of one split at depth d: by `depth=`, by `rankid=` (when ids are known) or by both - `rankid`
+    overrides `depth` (Fiber.split*: "rankid ... overrides depth"), e.g. a wrapper that forwards its default
+    depth=0 next to the rank id the caller named.  Boundaries from 0."""
     p = {"rankid": ids[d]} if ids is not None and rng.random() < 0.4 else {"depth": d}
+    if "rankid" in p and len(ids) > 1 and rng.random() < 0.5:
+        p["depth"] = rng.choice([0, rng.randrange(len(ids))])       # any rank, the named one or another
     if kind == "splitUniform":
         p["arg"] = rng.randint(1, 4)
     elif kind == "splitNonUniform":
@@ -719,7 +739,7 @@ def _fiber_cfg(rng, default):
     spec = gen.rand_leaf_spec(rng, ext, rng.choice([0.4, 0.7, 1.0]), 0.1, default, vals)
     if rng.random() < 0.06:
         spec = []
-    own = rng.choice(["free", "free", "tensor", "interior", "partition"])
+    own = rng.choice(["free", "free", "tensor", "interior", "partition", "default"])
     cfg = {"spec": spec, "default": default, "own": own, "rid": rng.choice("KMNJHW"), "shape": None, "active": None}
     top = (spec[-1][0] + 1) if spec else 0
     if own == "free":
@@ -736,6 +756,14 @@ def _fiber_cfg(rng, default):
         if own == "partition":
             cfg["step"] = rng.randint(2, 4)
             cfg["part"] = rng.randint(0, 3)
+        if own == "default":
+            # the (empty) sub-fiber a tensor hands out for a row it does not store: the tensor is still EMPTY (built
+            # by Tensor(rank_ids, shape), its lower rank holds no fiber yet) or stores one other row; handed out by
+            # getPayload of the missing coordinate or as the tensor's operand of a union with a populated tensor
+            cfg["row"] = spec if rng.random() < 0.35 else None
+            cfg["spec"] = []
+            cfg["shape"] = max(1, top) + rng.choice([0, 1, 4])
+            cfg["via"] = rng.choice(["getPayload", "union"])
     return cfg
 
 
@@ -1210,17 +1238,29 @@ def _run_xform(case, mon):
             mon.count("merge_absolute_from_above_split_halves")
         if done == 0 and stale & _stale_sensitive(op, p, st):
             key, roles = "transform[operand-grown-beyond-estimate]", None    # one mechanism whatever the transform
-        before = (t.getRankIds(), t.getShape(authoritative=True), unbox(t.getDefault()), t.isMutable())
+        # the snapshot is turned into tuples: a list the library hands out may be (part of) its own state
+        before = tup((t.getRankIds(), t.getShape(authoritative=True), unbox(t.getDefault()), t.isMutable()))
         raw0 = mon.counters["violations_raw"]
         try:
             t2 = _call(mon, key + ("[empty-tensor]" if nleaves == 0 else ""), _apply, t, op, p)
             mon.count("xform_steps")
-            good = _check_attrs(mon, op, t2, st2, skey=key if op in ("flattenRanks", "mergeRanks") else op)
+            akey = op
+            if op in SPLITS and "rankid" in p and "depth" in p and p["depth"] != _split_depth(st, p):
+                akey = f"{op}[rankid-and-depth]"        # both given, naming different ranks: rankid overrides
+                mon.count("split_rankid_and_depth_disagree")
+            good = _check_attrs(mon, akey, t2, st2, skey=key if op in ("flattenRanks", "mergeRanks") else akey)
             if good:                # containment is judged against a shape already known to be right
                 good = _check_tensor_fibers(mon, key, t2, st2, roles)
-            after = (t.getRankIds(), t.getShape(authoritative=True), unbox(t.getDefault()), t.isMutable())
+            after = tup((t.getRankIds(), t.getShape(authoritative=True), unbox(t.getDefault()), t.isMutable()))
             mon.check(before == after, f"{op}:operand-attributes-changed",
                       f"{key}: operand attributes were {before!r}, now {after!r}")
+            # ... and the operand (an intermediate result the holder may look at or use again) still answers with
+            # the attributes the algebra worked out for it, whatever was made from it since
+            mon.count("operand_rechecked_after_transform")
+            if any(isinstance(r, list) for r in st["ids"]):
+                mon.count("operand_with_flattened_rank_rechecked")
+            mon.check(tup(t.getRankIds()) == tup(st["ids"]), f"{op}:operand-attributes-changed",
+                      f"{key}: the operand had rank ids {st['ids']!r}, after the transform it answers {t.getRankIds()!r}")
         except _Raised:
             good = False
             break
@@ -1273,6 +1313,24 @@ def _build_fiber(mon, cfg):
         keep.append(t)
         s = shape if shape else top
         return t.getRoot().payloads[0], {"id": rid, "shape": s, "active": (0, s)}, keep
+    if own == "default":
+        if cfg["row"]:
+            t = gen.tensor_from_spec([[1, cfg["row"]]], ["TOP", rid], shape=[3, shape], default=d)
+        else:
+            t = Tensor(rank_ids=["TOP", rid], shape=[3, shape], default=d)
+            mon.count("default_subfibers_of_empty_tensor")
+        keep.append(t)
+        if cfg["via"] == "getPayload":
+            f = unbox(t.getRoot().getPayload(2))
+        else:
+            other = gen.tensor_from_spec([[2, [[0, 1 if d != 1 else 2]]]], ["TOP", rid], shape=[3, shape], default=d)
+            keep.append(other)
+            f = None
+            for c, (_, x, _y) in t.getRoot() | other.getRoot():
+                if c == 2:
+                    f = x
+        mon.count("default_subfibers")
+        return f, {"id": rid, "shape": shape, "active": (0, shape)}, keep
     # partition of a split tensor
     t = gen.tensor_from_spec(spec, [rid], shape=[shape], default=d)
     step = cfg["step"]
